@@ -23,7 +23,7 @@ func C05(c *Ctx) {
 		"(R2) the phase states form a dominator chain from __idle to stage_signing_idle with no skipping or backward edge; (R3) cancelled states of the invitation and DKG machines cannot reach any await state or signing-ready; " +
 		"(R4) each validator emits its advance event only under the normalised guard count(Status==Confirmed) >= N, the cancel event only under count(Status==Error/Declined) >= 1, the timeout event only under IsExpired(); " +
 		"(R5) every per-participant status store is gated by Status==<phase>Await on the same participant and QuorumExists(request.ParticipantId), and stores only that phase's constants; validators reset to the next phase's Await; " +
-		"(R6) error-path purity of callbacks; (R7) master-key mismatch emits the cancel event; (R8) hand-over events are issued only under the matching resp.State. " +
+		"(R6) the node never persists the outcome of an FSM step that returned an error (every dump given to SaveFSM is the result of a Do/Dump call, reachable only over its nil-error edge) — callback-level purity is deliberately not demanded; (R7) master-key mismatch emits the cancel event; (R8) hand-over events are issued only under the matching resp.State. " +
 		"NOT decided: deadline arithmetic on concrete timestamps, the exhaustive n<=4 exploration of the property's quantifier (the static argument is parametric in n), JSON/map behaviour."
 	r.Trusted = []string{"go/types, go/ssa (x/tools v0.29.0)", "Go map/range semantics (each element visited once)", "time.Time.Before"}
 	ms := c.Machines("C05/A1")
